@@ -64,3 +64,37 @@ def init {ρ σ : Type} (rules : ρ) (h : Handler) (st0 : Nat → σ) : G ρ σ 
   { rules := rules, count := 0, cur := h, saved := h, inside := [], st := st0, pc := fun _ => 0 }
 
 end YaraModel.Concurrent
+
+/-! ### Library lifetime (libyara.c `yr_initialize` / `yr_finalize`)
+  Process-wide state: `init_count` and the resources created by the first initialisation (two thread-local-storage keys
+  used by the try/catch and lexer trampolines, the module table, the heap). Every user (component, binding, thread —
+  the documentation asks that the calls be made by the main thread, so they are atomic steps here) takes a reference with
+  `init` and drops it with `fin`. An event list is one interleaving of all users' calls. -/
+namespace YaraModel.Concurrent
+
+inductive LibEv where
+  | init (user : Nat)
+  | fin (user : Nat)
+  deriving DecidableEq, Repr
+
+structure Lib where
+  count : Nat := 0          -- init_count
+  alive : Bool := false     -- TLS keys / modules / heap exist
+  users : List Nat := []    -- who currently holds a reference (with multiplicity)
+  finErrors : Nat := 0      -- yr_finalize calls that returned ERROR_INTERNAL_FATAL_ERROR
+  deriving DecidableEq, Repr
+
+/-- `yr_initialize`: count++, the first reference creates the resources;
+    `yr_finalize`: error when count = 0, else count--, the last reference destroys the resources.
+    (`fin u` by somebody who holds no reference is the API misuse the C code answers with an error when count = 0;
+    it is modelled as a no-op + error so that the step function is total.) -/
+def lstep (s : Lib) : LibEv → Lib
+  | .init u => { s with count := s.count + 1, alive := true, users := u :: s.users }
+  | .fin u =>
+      if u ∈ s.users then
+        { s with count := s.count - 1, alive := if s.count - 1 = 0 then false else s.alive, users := s.users.erase u }
+      else { s with finErrors := s.finErrors + 1 }
+
+def lrun (evs : List LibEv) : Lib := evs.foldl lstep {}
+
+end YaraModel.Concurrent
